@@ -5,7 +5,7 @@ UNITS = ["http.c", "evutil.c"]
 FUNCTIONS = ["evhttp_uriencode", "evhttp_decode_uri_internal", "evhttp_uridecode", "evhttp_decode_uri",
              "evhttp_parse_query_impl", "evhttp_parse_query_str", "evhttp_parse_query_str_flags",
              "evhttp_htmlescape", "html_replace"]
-BOUNDS = ("quick: byte strings <= 6 (codec, htmlescape), query strings <= 5; thorough: <= 8 / <= 6. Every byte symbolic (0x01-0xff; 0x00 too where the API takes "
+BOUNDS = ("quick: byte strings <= 6 (codec, htmlescape), query strings <= 5; thorough: <= 8 (round trip <= 7) / <= 6. Every byte symbolic (0x01-0xff; 0x00 too where the API takes "
           "an explicit length); all three '+' modes of the decoder; all 4 flag combinations of the query parser (one obligation each) plus the flag-less entry point")
 OUT = ("evhttp_parse_query (deprecated whole-URI entry: URI parser C28 + the same splitter); allocation failure paths; strings longer than the bound; "
        "evhttp_encode_uri is evhttp_uriencode(str,-1,0) and is covered through it; the evbuffer inside evhttp_uriencode is the contract model "
@@ -31,19 +31,21 @@ def obligations(tier):
     n = 6 if tier == "quick" else 8
     so = max(48, 6 * n + 2)
     D = ["VP_N=%d" % n, "VP_STR_OBJ=%d" % so]
-    B = 24 if n <= 6 else 32          # capacity of the evbuffer contract model (>= 3n+1)
+    nrt = 6 if tier == "quick" else 7  # round trip: the encoded text is 3x as long
+    B = 24 if nrt <= 6 else 32        # capacity of the evbuffer contract model (>= 3n+1)
     D = D + ["VP_BYTES_MAX=%d" % B]
+    DR = ["VP_N=%d" % nrt, "VP_STR_OBJ=%d" % so, "VP_BYTES_MAX=%d" % B]
     US = ["strtoll.0:2", "strtoll.1:4"]
     USB = US + ["vpb_init.0:%d" % (2 * B + 1), "vpb_append.0:%d" % (2 * B + 1), "evbuffer_remove.0:%d" % (B + 1),
-                "evhttp_uriencode.0:%d" % (n + 1), "vp_evp_num.0:4", "vp_evp_num.1:4", "vp_evp_num.2:4",
+                "evhttp_uriencode.0:%d" % (nrt + 1), "vp_evp_num.0:4", "vp_evp_num.1:4", "vp_evp_num.2:4",
                 "evbuffer_add_vprintf.0:8", "evbuffer_add_vprintf.1:4", "evbuffer_add_vprintf.2:4"]
     obs = [
         dict(name="decode", harness="C29_codec.c", entry="harness_decode", defines=D, unwind=n + 2, unwindset=US,
              timeout=TT, mem_gb=MM, desc="evhttp_decode_uri_internal on exact-size objects, input <= %d symbolic bytes, 3 plus modes" % n),
         dict(name="uridecode", harness="C29_codec.c", entry="harness_uridecode", defines=D, unwind=n + 2, unwindset=US,
              timeout=TT, mem_gb=MM, desc="evhttp_uridecode/evhttp_decode_uri wrappers, C string <= %d" % n),
-        dict(name="roundtrip", harness="C29_codec.c", entry="harness_roundtrip", defines=D, unwind=3 * n + 2, unwindset=USB,
-             timeout=TT, mem_gb=MM, desc="uriencode vs reference encoder + uridecode round trip, <= %d symbolic bytes (NUL allowed with explicit length), both plus modes" % n),
+        dict(name="roundtrip", harness="C29_codec.c", entry="harness_roundtrip", defines=DR, unwind=3 * nrt + 2, unwindset=USB,
+             timeout=TT, mem_gb=MM, desc="uriencode vs reference encoder + uridecode round trip, <= %d symbolic bytes (NUL allowed with explicit length), both plus modes" % nrt),
         dict(name="htmlescape", harness="C29_codec.c", entry="harness_htmlescape", defines=D, unwind=6 * n + 2, unwindset=["vp_memcpy.0:7", "ruc_starts.0:8", "evhttp_htmlescape.0:%d" % (n + 1), "evhttp_htmlescape.1:%d" % (n + 1), "vp_cstring.0:%d" % (n + 1)],
              timeout=TT, mem_gb=MM, desc="evhttp_htmlescape, C string <= %d" % n),
     ]
